@@ -36,6 +36,34 @@ CHECKS = {
    technique="TLA+ spec Shapes (tensors as index maps, one action per code step) checked exhaustively by TLC; TLC-exported cases replayed into the real shape functions with exact elementwise comparison; traces of random large shapes validated by TLC against Shapes_Trace",
    text="TLC checks exhaustively, on a TLA+ transcription (spec/Shapes) of merge_small_dims, BlockPartitioner, the Preconditioner's shape/slot bookkeeping, Tearfree _blocks_metadata/_blockify/_deblockify and the Tearfree reshaper in which tensors are index maps (output position -> linear index of the input element, so order is part of the model), 28 invariants and one action property for every shape of rank 0..4 with dims 1..4 (thorough: rank 5 with dims <=3, rank <=3 with dims <=6, Tearfree dims up to 9) x block sizes 1..5(7) x merge limits {off,1,2,3,4,6,8,4096} x ALL/INPUT/OUTPUT: product and limit of merged shapes, split sizes (positive, <= block size, exact sum, no empty block), blocks = contiguous sub-tensors in product order and bijective, announced preconditioners aligned with the blocks, slot lists of length rank using every announced matrix exactly once, identity preconditioning and merge.partition / deblockify.blockify / unmerge.merge round trips, pad rule, documented rejections. Every exported case (23,640 quick / 158,178 thorough) is executed on the real functions with index-valued tensors and compared elementwise and exactly, including tagged diagonal preconditioners (which matrix touches which axis of which block) and the order of statistics; random larger shapes (dims to 4096, <=2^20 elements, rank <=5) are recorded step by step and validated by TLC against the module's own actions with element probes.",
    note="Exact integer arithmetic (float64, values < 2^53), no tolerance. Trusted: TLC, jax eager execution, the closed-form label functions (tied to the index maps by the invariant ClosedForms in every exhaustive run). Tearfree/reshaper rejections: a rejection predicted by the spec and raised by an explicit ValueError is agreement; the reason text is not compared. Quick replay covers rank <=3 exhaustively and rank 4 over {2,3},{1,4}; rank 4 with dims <=4 and rank 5 are replayed in the thorough tier and reach the quick tier through the trace leg."),
+ "C01": dict(level="exploration", ref="4/C01",
+   technique="TLA+ automaton of the inverse-root routines' case structure (InvRoot) with exhaustive invariants; TLC-enumerated case lattice replayed into the real routines on matrices with prescribed spectrum; TLC trace validation with decimal-float arithmetic and one-sided rounding deciding the honesty relation",
+   text="TLC checks the case structure and bookkeeping of the three inverse-root routes (masking, ridge rule incl. floor and 10x escalation per retry, 1x1 branch, retry loop, deflation bracket, figure source, all-padding override, gate) exhaustively (16 invariants). It enumerates the full 147 456-case lattice (n <= 16, rank patterns, spread <= 1e8, scale 1e+-6, padding incl. junk fill and all-padding, p <= 8, two epsilons, relative/absolute, Newton/eigh/LOBPCG, f64/f32). A seed-moved slice (~600 quick, ~27 000 thorough) is run through the real routines on Q diag(a) Q^T. Every call is validated by TLC against InvRoot_Trace: structural clauses (finite, symmetric, exact zeros on padding), retry-automaton consistency, lambda_hat <= lambda_max, and in float64 `measured residual <= figure (1+2^-23) + 1000 n p 2^-53 cond(A+dI)` for cond <= 1e13, with the ridge reconstructed by the spec from the reported lambda_hat and retries. Accuracy is MEASURED by the harness (numpy float64), the relation is decided by TLC.",
+   note="Accuracy is measured on matrices with prescribed spectrum, not proved for all PSD matrices; the iteration itself is an environment choice of the model. A float32 report stands for a real within 2^-23. The eigh estimate is bounded by a per-case checked power-iteration premise. f32 gets structural clauses only. LOBPCG only at n = 16, k in {2,3}. Slack constant 1000 (worst measured excess/slack 0.0135)."),
+ "C09": dict(level="model_checking", ref="4/C09",
+   technique="TLA+ spec FD (exact rational frequent directions on axis-aligned histories) checked exhaustively by TLC; TLC-exported behaviours replayed, rotated by a random orthogonal matrix, into three implementations directly and through two optimizers; measured traces of dense histories validated by TLC (FD_Trace)",
+   text="TLC checks on exact-rational axis-aligned histories (d<=5, k<=3, decays 1, 1/2, 3/4, per-step ridge, T<=5) the PSD bracket, non-negativity, rank bound, tail law t'=b t+r, zero-step, low-rank exactness, the FD guarantee, and that the stored inverse-root arguments equal l+t. Every exported behaviour (all of depth 3, ridge behaviours of depth 4, a seeded sample of depth 6) is replayed, rotated by a random orthogonal Q, into DS _fd_update_root (packed, padded), Tearfree _update_axis (rank 1..3, any axis), OCO _fd_update_fn (x64), and through the real DS-FD and Tearfree-Sketchy optimizers; sketch matrix, tail, orthonormal-or-zero columns, both bracket margins and inverse-root arguments compared in mass space. Dense non-commuting histories are measured in float64 (numpy) and the margins validated by FD_Trace.",
+   note="Trusted: TLC, numpy eigvalsh, rotation equivariance. The has_zeros flag is compared only where no slot is empty and no eigenvalues tie at the cut. Ridge > 0 is replayed only on slot-full behaviours. DS sharded/pmap modes of FD are not exercised here (gradient-averaging windows and reset are C04's FD leg). Known open finding ds|fd|mixed_sizes|sketch_lost_by_truncation."),
+ "C10": dict(level="model_checking", ref="4/C10",
+   technique="TLA+ spec LowRank (pack, root-selection and apply machines) checked exhaustively by TLC; TLC-exported cases replayed on the real pack / root / apply functions and in optimizer runs",
+   text="TLC checks for all d<=12, |r|+2<d, both signs, padding 0..3: packed slots in bounds and disjoint, pack->unpack identity on distinct tokens, _precond_dim <=> _should_compress, the retained and averaged sets of _low_rank_root with their divisor, and the loop invariant and axis / preconditioner pairing of _precondition_block (rank 1..3, ALL/INPUT/OUTPUT). Every case is replayed on the real functions (cell-exact pack/unpack; x64 root denotation against the exact root on the spec's retained set at 1e-6, half of the spectra rank deficient; compressed versus dense application 1e-9 in x64 and 1e-4 in float32, including has_zeros), and in real DS runs with compression_rank = +-r.",
+   note="Spectra have a >=1.3x gap at every cut; rank-deficient spectra with a relative ridge are compared at 2e-4 (the null directions' root inherits the power iteration's stopping slack). The dense denotation is built from the code's own unpacked fields, whose cell map is checked separately. Optimizer-run roots are compared only where the spectrum is well conditioned."),
+ "C11": dict(level="model_checking", ref="4/C11",
+   technique="TLA+ spec Quant (integer lattice, float32 near-tie window explicit) checked exhaustively by TLC; TLC-exported allowed payload sets bound to the real quantizer by exact membership across the float32 exponent range; recorded grid tensors validated by TLC (Quant_Trace)",
+   text="TLC proves on the integer lattice (every column max in 1..300 plus boundary values x every entry; every small matrix with and without diagonal extraction; N = 127 and 32767) that every payload the float32 arithmetic can produce - near-tie window, and exact round-half-even when N divides the max - is within half a bucket, never wraps, reproduces zero, diagonal and max exactly, and re-quantises to itself. The code is bound by exact payload membership on those columns x exponents across the float32 range (near overflow, normal floor, subnormal classes) in rank 1, 2, 3 and square tensors, eager and jit, int8/int16/bfloat16/float32, and by trace validation of random grid tensors.",
+   note="Three open input classes are reported as known findings (bucket underflow, subnormal entry, FLT_MAX column in eager mode); ties under the window are pinned only for columns whose max is a multiple of N; TLC mantissas are 16-bit, 24-bit mantissas are judged by a numpy transcription of Quant!Allowed that is compared with TLC's export on every lattice entry."),
+ "C12": dict(level="model_checking", ref="4/C12",
+   technique="TLA+ spec SM3 (integer gradients, exact per-entry second moment as history variable) checked exhaustively by TLC; behaviours replayed into the real sm3 with exact accumulator equality; grid and float traces validated by TLC (SM3_Trace)",
+   text="TLC proves cover, step bound, tightness, rank-1 exactness and monotonicity for all integer gradient histories within the bounds (ranks 1-4, <= 8 coordinates, T <= 3, beta2 in {1, 1/2, 3/4}). Every behaviour of depth <= 2 plus a simulated depth-3 sample is replayed into the real optimizer with exact accumulator equality and the update compared with -lr g / sqrt(nu + eps). Grid and float traces with beta1, weight decay and gradient normalisation are validated.",
+   note="Float histories are judged by per-update violation counts with a 1e-4 one-sided margin (float64 recursion); update tolerance 2e-5 (measured 1e-7)."),
+ "C16": dict(level="model_checking", ref="4/C16",
+   technique="TLA+ spec OCO over FDLattice checked exhaustively by TLC; TLC-exported and TLC-simulated behaviours replayed into generate_init_update under x64; recorded fixed-point traces validated by TLC against OCO_Trace",
+   text="TLC checks OGD/AdaGrad closed forms and, for the four sketched methods on an exact axis-aligned frequent-directions lattice, that the row machine refines documented FD, last row zero, bracket, rank bound, alpha law, lossless => sketch = covariance and S-AdaGrad's argument = delta + covariance (d<=4, k<=4, T<=5). Every exported behaviour (exhaustive d=3, sampled d<=5) is replayed under x64, rotated by a random orthogonal Q: iterate, sketch, singular values, e[-1]==0, alpha, t at 1e-9; S-AdaGrad against a full-matrix AdaGrad iterate; dense histories validated through measured bracket/alpha-law margins.",
+   note="Trusted: TLC, float64 evaluation of the emitted function tags, rotation equivariance, numpy SVD for the independent rho^2. ADA_FD/FD_SON with delta>0 only; iterates at delta = 0 (division by a ~1e-32 alpha) are recorded as observations outside the property."),
+ "C17": dict(level="model_checking", ref="4/C17",
+   technique="TLA+ spec Realloc checked exhaustively by TLC; TLC-exported behaviours replayed into create_redist_dict (membership in the spec's allowed set, tie witnesses); recorded integer traces validated by TLC against Realloc_Trace",
+   text="TLC checks on the model of create_redist_dict's per-group loop (one action per source step, float ties explicit, two float models) that at termination 1<=rank<=dim and sum rank<=n base, the three asserts are unreachable and resource/leftover are conserved, for n<=4, scores 0..5(6), dim 2..6(1..8), base 1..6(9). Every exported behaviour is driven through the real function on synthetic states (all scoring rules, running average, multi-group calls, non-dyadic scalings); the real allocation must be one the spec allows; unused branches are reported. Random float-score calls (scale-disparate 1e-8..1e8, tied, zero) and the repo's recorded checkpoint are validated as integer traces.",
+   note="Trusted: TLC, group order read from the code's own create_groups under PYTHONHASHSEED=0; the exact allocation is claimed only for integer-proportional scores, arbitrary floats only for the budget/range."),
 }
 
 NA_REASON = "check not built yet in this round (work in progress; see DESIGN.md section 9)"
